@@ -1870,6 +1870,10 @@ class LoopExpression(Expression):
         if limit is None and offset is None:
             context.stopindex(key=offset_key, index=length)
             if self.reversed:
+                # A range is reversed by arithmetic. The loop limit is checked
+                # before the first iteration, not after building a list.
+                if isinstance(it, range):
+                    return reversed(it), length
                 return reversed(list(it)), length
             return iter(it), length
 
@@ -1891,9 +1895,10 @@ class LoopExpression(Expression):
         context.stopindex(key=offset_key, index=stop)
         if isinstance(it, range):
             # Skipping to the offset of a range is arithmetic, not iteration.
-            it = iter(it[offset or 0 : stop])
-        else:
-            it = islice(it, offset, stop)
+            it = it[offset or 0 : stop]
+            return (reversed(it) if self.reversed else iter(it)), length
+
+        it = islice(it, offset, stop)
 
         if self.reversed:
             return reversed(list(it)), length
